@@ -183,7 +183,43 @@ fn main() {
 		let r = std::panic::catch_unwind(std::panic::AssertUnwindSafe(|| {
 			let es: Vec<String> = o.get_mapped_entries(&cm, 0, q).map(|e| format!("{}.{}.{}", e.offset, e.value.key.offset, e.value.value.offset)).collect();
 			let vs: Vec<String> = o.get_mapped(&cm, 0, q).map(|e| format!("{}", e.offset)).collect();
-			format!("E {} V {}", es.join(";"), vs.join(";"))
+			let is: Vec<String> = o.iter_mapped(&cm, 0).map(|e| format!("{}.{}.{}", e.offset, e.value.key.offset, e.value.value.offset)).collect();
+			format!("E {} V {} I {}", es.join(";"), vs.join(";"), is.join(";"))
+		}));
+		match r {
+			Ok(l) => println!("{}", l),
+			Err(_) => println!("PANIC"),
+		}
+		return;
+	}
+	if args.first().map(|s| s.as_str()) == Some("convert") {
+		// `convert DEPTH JSON`: parses [[0],JSON] with the real parser (JSON at offset 3) and prints the real
+		// Vec::<bool> (DEPTH 1) or Vec::<Vec<bool>> (DEPTH 2) ::try_from_json_at(V, code map, 3)
+		use json_syntax::{code_map::Mapped, KindSet, Parse, TryFromJson, Unexpected, Value};
+		std::panic::set_hook(Box::new(|_| {}));
+		let doc = format!("[[0],{}]", args[2]);
+		let (outer, cm) = Value::parse_str(&doc).unwrap();
+		let target = &outer.as_array().unwrap()[1];
+		let show = |e: Mapped<Unexpected>| {
+			format!(
+				"ERR {} {} {:?}",
+				e.offset,
+				if e.value.expected == KindSet::BOOLEAN { "BOOLEAN" } else if e.value.expected == KindSet::ARRAY { "ARRAY" } else { "OTHER" },
+				e.value.found
+			)
+		};
+		let r = std::panic::catch_unwind(std::panic::AssertUnwindSafe(|| {
+			if args[1] == "1" {
+				match Vec::<bool>::try_from_json_at(target, &cm, 3) {
+					Ok(bs) => format!("OK {:?}", bs),
+					Err(e) => show(e),
+				}
+			} else {
+				match Vec::<Vec<bool>>::try_from_json_at(target, &cm, 3) {
+					Ok(bs) => format!("OK {:?}", bs),
+					Err(e) => show(e),
+				}
+			}
 		}));
 		match r {
 			Ok(l) => println!("{}", l),
